@@ -882,7 +882,13 @@ fn items_json<'tcx>(tcx: TyCtxt<'tcx>) -> (Vec<J>, Vec<J>, Vec<J>, Vec<J>, Vec<J
                     .f(
                         "predicates",
                         J::Arr(preds.predicates.iter().map(|p| J::s(format!("{}", p.skip_norm_wip()))).collect()),
-                    );
+                    )
+                    .f("generics", {
+                        // names of the generic parameters in substitution order (parent's first), so that the
+                        // `args` of a call can be matched with the names the callee's body uses
+                        let g = tcx.generics_of(def_id);
+                        J::Arr((0..g.count()).map(|i| J::s(g.param_at(i, tcx).name.to_string())).collect())
+                    });
                 if let Some(imp) = tcx.impl_of_assoc(def_id) {
                     let st = tcx.type_of(imp).instantiate_identity().skip_norm_wip();
                     o = o.fs("impl_self", ty_str(st));
